@@ -153,6 +153,28 @@ func (c17) Run(c *run.Ctx, phase, idx int) {
 			}
 			det := map[string]interface{}{"cell": cell, "topic": topic}
 			c17Judge(c, "Publish", cell, "api", want, p.WellFormed, p.String, det)
+			if k%2 == 0 {
+				// the same message serves as the will of a CONNECT: the rules
+				// for a *Publish do not depend on where else it is referenced,
+				// and the will that comes back from the wire is judged by its
+				// own accessor values
+				cn := mq.NewConnect()
+				cn.SetClientID("c")
+				if pan := mon.Guard(func() { cn.SetWill(p) }); pan == nil {
+					c17Judge(c, "Publish", cell, "api+attached-as-will", want, p.WellFormed, p.String, det)
+					if qos < 3 {
+						if out, _, werr, pan := libEncode(cn); pan == nil && werr == nil {
+							if res := libRead(out); res.Accepted() {
+								if dc, ok := res.Pkt.(*mq.Connect); ok && dc.Will() != nil {
+									w := dc.Will()
+									wantW := (w.TopicName() == "" && w.TopicAlias() == 0) || ((w.QoS() == 1 || w.QoS() == 2) && w.PacketID() == 0) || w.QoS() == 3
+									c17Judge(c, "Publish", cell, "will-of-decoded-connect", wantW, w.WellFormed, w.String, det)
+								}
+							}
+						}
+					}
+				}
+			}
 			// from the wire, where the frame can carry the cell
 			if (qos == 1 || qos == 2) || pid == 0 {
 				a := &ref.Packet{Type: ref.TPublish, Flags: qos<<1 | b2i(dup)<<3 | b2i(retain), Topic: topic, PacketID: pid}
